@@ -273,6 +273,10 @@ fn atomic_write_file(path: &Path, payload: &[u8]) -> std::io::Result<()> {
     Ok(())
 }
 
+#[cfg(kani)]
+#[path = "/verif/harness/ripd/local_authority.rs"]
+mod verif_kani;
+
 #[cfg(test)]
 mod tests {
     use super::*;
